@@ -27,7 +27,7 @@ import (
 const versionBase = 1000 // daemon d answers Version = versionBase + d (>= api.Version, hence "ok")
 
 // patience bounds every wait of the harness; expiry is a machinery problem (exit 2), never a verdict.
-var patience = 120 * time.Second
+var patience = 300 * time.Second
 
 func goid() int64 {
 	var buf [64]byte
